@@ -12,31 +12,38 @@ from harness.core import Ctx
 
 ID = "C07"
 PROPS_FILE = "AdaptixProofs/Props/C07.lean"
-EXTRA_PROPS_FILES = ["AdaptixProofs/Props/C07Leaves.lean"]
-LEAN_TARGETS = ["AdaptixProofs.Props.C07", "AdaptixProofs.Props.C07Leaves", "drv_morph"]
+EXTRA_PROPS_FILES = ["AdaptixProofs/Props/C07Leaves.lean", "AdaptixProofs/Props/C07Narrow.lean"]
+LEAN_TARGETS = ["AdaptixProofs.Props.C07", "AdaptixProofs.Props.C07Leaves", "AdaptixProofs.Props.C07Narrow", "drv_morph"]
 EXTRACT = [scalars.emit, doctable.emit]
 CLAIM = {
-    "technique": "Lean 4 proof: fuel induction strict ⊆ lax over the container model + kernel-checked table over the translated "
-                 "strict closures and the documentation's origins table; model/code correspondence in both coercion modes",
+    "technique": "Lean 4 proof: fuel induction strict ⊆ lax over the container model + joint symbolic execution of the "
+                 "translated strict/lax closure pairs (kernel-checked table, lifted by soundness of the symbolic evaluator) + "
+                 "kernel-checked table over the documentation's origins table; model/code correspondence in both coercion modes",
     "text": (
         "Props/C07.lean proves for all worlds, types, data, fuels and debug_trail modes that a strictly accepted datum is "
         "laxly accepted (given the same for the leaves) and loads to the identical value for union-free types and, with unions, "
         "under an explicit no-lax-overlap hypothesis; and that strict iterable/tuple loaders never accept Mapping or str and a "
-        "bool/0/1-sensitive strict Literal never accepts a value of another exact type. Props/C07Leaves.lean proves, over the "
-        "strict loader closures translated from the source on this run and the 'Allowed strict origins' table parsed from "
-        "the documentation on this run, that a strict scalar loader only ever returns on data of a documented origin class."
+        "bool/0/1-sensitive strict Literal never accepts a value of another exact type. Props/C07Narrow.lean DISCHARGES the leaf "
+        "hypothesis for the closures translated from the source on this run: leaf_narrowing (strict returns v => lax returns the "
+        "same v, every scalar, datum and call-site behaviour within the catalogue) by joint symbolic execution of both closures, "
+        "and restates the container theorems for the builtin world (builtin_strict_sub_lax_value_unionFree, "
+        "builtin_strict_sub_lax_accept). Props/C07Leaves.lean proves, over the strict closures and the 'Allowed strict origins' "
+        "table parsed from the documentation on this run, that a strict scalar loader only returns on data of a documented "
+        "origin class. The catalogue hypotheses are shown satisfiable (witness_within, witness_joint, witness_identity)."
     ),
     "note": (
-        "The leaf narrowing `strict ok v -> lax ok v` for scalars is a hypothesis of the container theorem: it is validated on "
-        "every run by the direct oracle over the hostile corpus (strict vs lax real loaders) but not proved, because it depends "
-        "on stdlib value semantics (int(x) is x for exact ints ...). Stdlib exception catalogue as in C04."
+        "Assumed about the stdlib (regenerated/validated on every run over the hostile corpus, not proved): the exception "
+        "catalogue (which outcome classes a call site shows per datum class) and the identity table (int(x) is x for an exact "
+        "int, str(x) for an exact str, Decimal(x) for a Decimal ...); a call expression named in both closures is assumed to do "
+        "the same in both (one behaviour function)."
     ),
     "design_ref": "DESIGN.md §4 C07",
 }
 RULE = ("generated types x valid/corrupted/hostile data x 3 modes, compared pairwise between strict and lax; every scalar x "
         "hostile corpus; non-trivial = strict accepts, or strict and lax differ")
-ASSUMPTIONS = ["leaf narrowing for scalar closures (validated by the oracle on the hostile corpus, not proved)",
-               "stdlib exception catalogue (C04)"]
+ASSUMPTIONS = ["stdlib exception catalogue (C04) and identity table (int(x) is x for exact ints ...): regenerated from "
+               "observations on the hostile corpus on every run",
+               "a call expression occurring in both the strict and the lax closure behaves the same in both"]
 TRUSTED = ["translator extract/scalars.py and extract/doctable.py"]
 
 
